@@ -168,12 +168,12 @@ fn store_cleanup_removes_only_expired() {
             let expired_ttl = !tm.is_zero() && tm.is_expired();
             let resident = s.expiration(k).is_some();
             if !resident && !expired_ttl {
-                fail("store_cleanup_removes_only_expired", "C04,C05:cleanup.only-expired-ttl-entries-removed", &["C04", "C05", "C03", "C11"], "ShardedMap::try_cleanup", script.join("; "),
+                fail("store_cleanup_removes_only_expired", "C04,C05:cleanup.only-expired-ttl-entries-removed", &["C04", "C05", "C03", "C11", "C06", "C08"], "ShardedMap::try_cleanup", script.join("; "),
                     format!("key {} (value {}, ttl {:?}, zero={}) was swept", k, v, tm.d, tm.is_zero()), "cleanup removes only entries whose TTL has elapsed".into());
                 return;
             }
             if resident && expired_ttl && storage_bucket(*tm) <= now_s as i64 {
-                fail("store_cleanup_removes_only_expired", "C05:cleanup.reclaims-every-expired-entry", &["C05"], "ShardedMap::try_cleanup", script.join("; "),
+                fail("store_cleanup_removes_only_expired", "C05:cleanup.reclaims-every-expired-entry", &["C05", "C06"], "ShardedMap::try_cleanup", script.join("; "),
                     format!("key {} expired (bucket {}) but still resident", k, storage_bucket(*tm)), "every expired entry in a due bucket is reclaimed".into());
                 return;
             }
